@@ -23,6 +23,8 @@ type Env struct {
 	callee      bool   // evaluating a callee's contract at a call site
 	pkg         string // package for Go constants / globals
 	src         string
+	inOld       bool // inside old(...): parameters denote their entry values
+	inTrigger   bool // evaluating a quantifier pattern: no Boolean connectives
 }
 
 func (g *Gen) newEnv(cur, old *State) *Env {
@@ -165,7 +167,9 @@ func (e *Env) eval(x spec.Expr) TV {
 			for _, tr := range x.Triggers {
 				var ts []string
 				for _, t := range tr {
-					ts = append(ts, n.materialize(n.eval(t)).T)
+					tn := *n
+					tn.inTrigger = true
+					ts = append(ts, tn.materialize(tn.eval(t)).T)
 				}
 				bt += " :pattern (" + strings.Join(ts, " ") + ")"
 			}
@@ -286,6 +290,24 @@ func (e *Env) lookupType(s string) types.Type {
 func (e *Env) ident(name string) TV {
 	g := e.g
 	if tv, ok := e.vars[name]; ok {
+		// a parameter that the loop reassigns (it is a phi node of the loop
+		// whose invariant is being evaluated) denotes its current value there
+		if ptv, isParam := g.params[name]; isParam && !e.callee && !e.inOld && e.loop != nil && ptv.T == tv.T {
+			if e.phiOverride != nil {
+				if o, ok := e.phiOverride[name]; ok {
+					return o
+				}
+			}
+			for _, in := range e.loop.header.Instrs {
+				phi, ok := in.(*ssa.Phi)
+				if !ok {
+					break
+				}
+				if phi.Comment == name {
+					return TV{g.vals[phi], g.u.SortOf(phi.Type()), phi.Type()}
+				}
+			}
+		}
 		return tv
 	}
 	if name == "nil" {
@@ -295,6 +317,34 @@ func (e *Env) ident(name string) TV {
 		if tv, ok := e.phiOverride[name]; ok {
 			return tv
 		}
+	}
+	if !e.callee && name == "rangeseen" {
+		// keys already visited by the map range of the invariant's loop (or,
+		// for a loop without one, of the first map range of the function)
+		find := func(b *ssa.BasicBlock) *TV {
+			for _, in := range b.Instrs {
+				if nx, ok := in.(*ssa.Next); ok {
+					if rg, ok := nx.Iter.(*ssa.Range); ok {
+						if mt, ok := types.Unalias(rg.X.Type()).Underlying().(*types.Map); ok {
+							k := g.seenComp(rg, g.u.SortOf(mt.Key()))
+							return &TV{g.read(e.cur, k), g.u.compSort[k], nil}
+						}
+					}
+				}
+			}
+			return nil
+		}
+		if e.loop != nil {
+			if tv := find(e.loop.header); tv != nil {
+				return *tv
+			}
+		}
+		for _, b := range g.fn.Blocks {
+			if tv := find(b); tv != nil {
+				return *tv
+			}
+		}
+		e.fail("rangeseen: no map range in this function")
 	}
 	if !e.callee {
 		for _, fv := range g.fn.FreeVars {
@@ -341,6 +391,41 @@ func (e *Env) ident(name string) TV {
 	}
 	e.fail("unknown identifier %s", name)
 	return TV{}
+}
+
+// memLocal: current content of the unique address-taken local called name
+// (no phi of that name, exactly one Alloc).
+func (e *Env) memLocal(name string) (TV, bool) {
+	g := e.g
+	var cell *ssa.Alloc
+	for _, b := range g.fn.Blocks {
+		for _, in := range b.Instrs {
+			switch x := in.(type) {
+			case *ssa.Phi:
+				if x.Comment == name {
+					return TV{}, false
+				}
+			case *ssa.Alloc:
+				if x.Comment == name {
+					if cell != nil {
+						return TV{}, false
+					}
+					cell = x
+				}
+			}
+		}
+	}
+	if cell == nil {
+		return TV{}, false
+	}
+	if _, defined := g.vals[cell]; !defined {
+		return TV{}, false
+	}
+	et := deref(cell.Type())
+	if isAggregate(et) {
+		return TV{g.val(cell), atRefSort, et}, true
+	}
+	return TV{g.load(e.cur, g.placeOfRef(g.val(cell), et)), g.u.SortOf(et), et}, true
 }
 
 func (e *Env) goObject(obj types.Object) TV {
@@ -391,8 +476,26 @@ func (g *Gen) localByName(name string, li *loopInfo) (TV, bool) {
 			}
 		}
 	}
-	if found != nil {
+	if found != nil && (li == nil || found.Block() == li.header) {
 		return TV{g.vals[found], g.u.SortOf(found.Type()), found.Type()}, true
+	}
+	// a captured variable (free variable of a closure, or a local that lives in
+	// a heap cell because a closure captures it) has no single SSA value: its
+	// value depends on the state, so it is read from its cell by the caller
+	// (ident), never taken from a DebugRef snapshot
+	for _, fv := range g.fn.FreeVars {
+		if fv.Name() == name {
+			return TV{}, false
+		}
+	}
+	for _, b := range g.fn.Blocks {
+		for _, in := range b.Instrs {
+			if al, ok := in.(*ssa.Alloc); ok && al.Heap && al.Comment == name {
+				if _, defined := g.vals[al]; defined {
+					return TV{}, false
+				}
+			}
+		}
 	}
 	// source-level variable via DebugRef: the last non-address reference whose
 	// block dominates the point of interest
@@ -418,6 +521,9 @@ func (g *Gen) localByName(name string, li *loopInfo) (TV, bool) {
 				}
 			}
 		}
+	}
+	if best == nil && found != nil {
+		return TV{g.vals[found], g.u.SortOf(found.Type()), found.Type()}, true
 	}
 	if best != nil {
 		return TV{g.val(best), g.u.SortOf(best.Type()), best.Type()}, true
@@ -757,6 +863,47 @@ func (e *Env) call(x *spec.Call) TV {
 	case "old":
 		n := *e
 		n.cur = e.old
+		n.inOld = true
+		return n.materialize(n.eval(x.Args[0]))
+	case "rangeseen", "rangedom":
+		// rangeseen(): keys already visited by the map iteration of the loop
+		// whose invariant is being evaluated; rangedom(): the map's current key set
+		if e.loop == nil {
+			e.fail("%s() outside a loop invariant", x.Fn)
+		}
+		for _, in := range e.loop.header.Instrs {
+			nx, ok := in.(*ssa.Next)
+			if !ok {
+				continue
+			}
+			r, ok := nx.Iter.(*ssa.Range)
+			if !ok {
+				continue
+			}
+			mt, ok := types.Unalias(r.X.Type()).Underlying().(*types.Map)
+			if !ok {
+				continue
+			}
+			ks := g.u.SortOf(mt.Key())
+			if x.Fn == "rangeseen" {
+				return TV{g.read(e.cur, g.seenComp(r, ks)), "(Array " + ks + " Bool)", nil}
+			}
+			if e.inTrigger {
+				md, _ := g.u.MapComps(mt)
+				return TV{fmt.Sprintf("(select %s %s)", g.read(e.cur, md), g.val(r.X)), "(Array " + ks + " Bool)", nil}
+			}
+			return TV{g.mapDom(e.cur, mt, g.val(r.X)), "(Array " + ks + " Bool)", nil}
+		}
+		e.fail("%s(): the loop does not range over a map", x.Fn)
+	case "loopentry":
+		// loopentry(e): e in the state on entry to the loop whose invariant is
+		// being evaluated (loop variables have their initial values)
+		if e.loop == nil || e.loop.pre == nil {
+			e.fail("loopentry() outside a loop invariant")
+		}
+		n := *e
+		n.cur = e.loop.pre
+		n.phiOverride = e.loop.prePhi
 		return n.materialize(n.eval(x.Args[0]))
 	case "len", "cap":
 		a := e.eval(x.Args[0])
@@ -775,23 +922,81 @@ func (e *Env) call(x *spec.Call) TV {
 				return TV{fmt.Sprint(at.Len()), "Int", nil}
 			}
 			if mt, ok := types.Unalias(t).Underlying().(*types.Map); ok {
-				g.u.Extra("(declare-fun map.len ((Array Int Bool)) Int)")
-				_ = mt
-				e.fail("len of map not supported in contracts")
+				md, _ := g.u.MapComps(mt)
+				return TV{g.u.MapCard(g.u.SortOf(mt.Key()), fmt.Sprintf("(select %s %s)", g.read(e.cur, md), a.T)), "Int", nil}
 			}
 		}
 		e.fail("len of %s", a.Sort)
+	case "onlymap":
+		// onlymap(m): among the maps of m's type, only m may differ from the
+		// old state (frame for functions that update one map)
+		m := e.eval(x.Args[0])
+		mt, ok := types.Unalias(m.Go).Underlying().(*types.Map)
+		if m.Go == nil || !ok {
+			e.fail("onlymap() needs a map")
+		}
+		md, mv := g.u.MapComps(mt)
+		dc, do, vc, vo := g.read(e.cur, md), g.read(e.old, md), g.read(e.cur, mv), g.read(e.old, mv)
+		return TV{fmt.Sprintf("(forall ((r!m Int)) (! (=> (not (= r!m %s)) (and (= (select %s r!m) (select %s r!m)) (= (select %s r!m) (select %s r!m)))) :pattern ((select %s r!m)) :pattern ((select %s r!m))))",
+			m.T, dc, do, vc, vo, dc, vc), "Bool", nil}
+	case "goeq":
+		// goeq(a, b): Go's == on two interface values (exact for nil and for
+		// pointer payloads, uninterpreted but reflexive for boxed values) — the
+		// same term the generator uses for the code's comparison
+		a, b2 := e.materialize(e.eval(x.Args[0])), e.materialize(e.eval(x.Args[1]))
+		if a.Sort != "Iface" || b2.Sort != "Iface" {
+			e.fail("goeq needs two interface values")
+		}
+		if a.T == "nil.iface" || b2.T == "nil.iface" {
+			return TV{fmt.Sprintf("(= %s %s)", a.T, b2.T), "Bool", nil}
+		}
+		return TV{fmt.Sprintf("(iface.eq %s %s)", a.T, b2.T), "Bool", nil}
+	case "dom":
+		// dom(m): the key set of map m as an SMT array K -> Bool
+		m := e.eval(x.Args[0])
+		mt, ok := types.Unalias(m.Go).Underlying().(*types.Map)
+		if m.Go == nil || !ok {
+			e.fail("dom() needs a map")
+		}
+		if e.inTrigger {
+			// patterns must not contain ite: the plain key set (equal to the
+			// guarded one whenever the map is not nil)
+			md, _ := g.u.MapComps(mt)
+			return TV{fmt.Sprintf("(select %s %s)", g.read(e.cur, md), m.T), "(Array " + g.u.SortOf(mt.Key()) + " Bool)", nil}
+		}
+		return TV{g.mapDom(e.cur, mt, m.T), "(Array " + g.u.SortOf(mt.Key()) + " Bool)", nil}
 	case "has":
 		m := e.eval(x.Args[0])
 		k := e.materialize(e.eval(x.Args[1]))
 		if mt, ok := types.Unalias(m.Go).Underlying().(*types.Map); m.Go != nil && ok {
+			// a nil map has no keys (as in the model of a map lookup)
 			md, _ := g.u.MapComps(mt)
-			return TV{fmt.Sprintf("(select (select %s %s) %s)", g.read(e.cur, md), m.T, k.T), "Bool", nil}
+			if e.inTrigger {
+				return TV{fmt.Sprintf("(select (select %s %s) %s)", g.read(e.cur, md), m.T, k.T), "Bool", nil}
+			}
+			return TV{fmt.Sprintf("(and (not (= %s 0)) (select (select %s %s) %s))", m.T, g.read(e.cur, md), m.T, k.T), "Bool", nil}
 		}
 		if strings.HasPrefix(m.Sort, "(Array ") {
 			return TV{fmt.Sprintf("(select %s %s)", m.T, k.T), "Bool", nil}
 		}
 		e.fail("has() on %s", m.Sort)
+	case "card":
+		// card(S): cardinality of a key set (Array K Bool), the function behind len(map)
+		a := e.materialize(e.eval(x.Args[0]))
+		if strings.HasPrefix(a.Sort, "(Array ") && arrayElemSort(a.Sort) == "Bool" {
+			return TV{g.u.MapCard(arrayKeySort(a.Sort), a.T), "Int", nil}
+		}
+		e.fail("card() needs a key set")
+	case "local":
+		// local(x): current content of the memory-resident local variable x
+		// (address-taken, not lifted to registers). A plain `x` may denote the
+		// value it was initialised with.
+		if id, ok := x.Args[0].(*spec.Ident); ok && !e.callee {
+			if tv, ok := e.memLocal(id.Name); ok {
+				return tv
+			}
+		}
+		e.fail("local(): no unique memory-resident local of that name")
 	case "fresh":
 		a := e.eval(x.Args[0])
 		t := a.T
@@ -928,6 +1133,10 @@ func (e *Env) call(x *spec.Call) TV {
 	case "bat":
 		a, i := e.eval(x.Args[0]), e.eval(x.Args[1])
 		return TV{fmt.Sprintf("(select (b.arr %s) %s)", a.T, i.T), "Int", nil}
+	case "bcat":
+		// bcat(a, b): concatenation of two byte strings
+		a, b2 := e.eval(x.Args[0]), e.eval(x.Args[1])
+		return TV{fmt.Sprintf("(b.cat %s %s)", a.T, b2.T), "Bytes", nil}
 	case "bsub":
 		// bsub(b, lo, hi): sub-string [lo,hi)
 		a, lo, hi := e.eval(x.Args[0]), e.eval(x.Args[1]), e.eval(x.Args[2])
@@ -956,6 +1165,24 @@ func (e *Env) call(x *spec.Call) TV {
 			e.fail("typeis: unknown type %s", tn)
 		}
 		return TV{fmt.Sprintf("(= (i.typ %s) %d)", a.T, g.u.TypeID(t)), "Bool", nil}
+	case "addr":
+		// addr(x.f): the address of an aggregate field / variable (e.g. a mutex)
+		a := e.eval(x.Args[0])
+		if a.Sort != atRefSort {
+			e.fail("addr() needs an addressable aggregate (struct or array field)")
+		}
+		return TV{a.T, "Int", types.NewPointer(a.Go)}
+	case "errIsConst":
+		// errIsConst(e, C): the result of errors.Is(e, C) for a typed integer constant C
+		a, c := e.eval(x.Args[0]), e.eval(x.Args[1])
+		if a.Sort != "Iface" || c.Sort != "Int" || c.Go == nil {
+			e.fail("errIsConst(err, typed constant)")
+		}
+		if _, named := types.Unalias(c.Go).(*types.Named); !named {
+			e.fail("errIsConst: %s is not a constant of a named type", x.Args[1])
+		}
+		g.u.Extra(errIsConstDecl)
+		return TV{fmt.Sprintf("(f.errIsConst %s %d %s)", a.T, g.u.TypeID(c.Go), c.T), "Bool", nil}
 	case "int", "int64", "int32", "uint32", "uint64", "uint8", "byte", "uint16", "int16", "uint":
 		a := e.materialize(e.eval(x.Args[0]))
 		return TV{a.T, "Int", nil}
